@@ -98,6 +98,17 @@ class CursorTranslator(Translator):
     # ---------- lvalues
     def lvalue(self, n, st):
         k = n["kind"]
+        # `iov[1].iov_len`: a member of an element of a LOCAL array at a constant index is a local variable of its own
+        if k == "MemberExpr" and not n.get("isArrow"):
+            b = self.strip(n["inner"][0])
+            if b.get("kind") == "ArraySubscriptExpr":
+                a0 = self.strip(b["inner"][0])
+                ix = self.strip(b["inner"][1])
+                if a0.get("kind") == "DeclRefExpr" and a0["referencedDecl"]["kind"] == "VarDecl" and ix.get("kind") == "IntegerLiteral" \
+                        and a0["referencedDecl"]["name"] in st["declared"]:
+                    nm = "%s[%s].%s" % (a0["referencedDecl"]["name"], ix["value"], n["name"])
+                    st["declared"].add(nm)
+                    return ("local", nm)
         if k == "UnaryOperator" and n.get("opcode") == "*":
             inner = self.strip(n["inner"][0])
             if not (inner["kind"] == "CallExpr"):
@@ -163,6 +174,8 @@ class CursorTranslator(Translator):
             sub = self.strip(n["inner"][0])
             if sub["kind"] == "MemberExpr":
                 return Addr(self.lvalue(sub, st))
+            if sub["kind"] == "DeclRefExpr" and sub["referencedDecl"]["kind"] == "VarDecl":
+                return Addr(("local", sub["referencedDecl"]["name"]))        # a local array handed over by address
         if k == "CompoundAssignOperator" and n["opcode"] in ("+=", "-="):
             lv = self.lvalue(n["inner"][0], st)
             if lv[0] == "local" and isinstance(st["locals"].get(lv[1]), Cur):
